@@ -137,7 +137,8 @@ def hessian_log_determinant(function, x, *args, jit=True):
     -------
     array-like, array-like
         The sign of the determinant at each point in `x` and the logarithm of its absolute value.
-        `signs.shape == log_determinants.shape == x.shape[0]`.
+        `signs.shape == log_determinants.shape == x.shape[0]`; if `function` returns k > 1 values per
+        point the shape is `(x.shape[0], k)`, one pair per Hessian block.
     """
     x = atleast_2d(x)
 
@@ -145,8 +146,13 @@ def hessian_log_determinant(function, x, *args, jit=True):
     hess_shape = (d, d)
 
     def get_log_det(x, *args):
-        hess = jax.jacfwd(jax.jacrev(function))(x[None, :], *args).reshape(hess_shape)
+        # one (d, d) block per output column of `function` (a single block for scalar outputs)
+        hess = jax.jacfwd(jax.jacrev(function))(x[None, :], *args).reshape(
+            (-1,) + hess_shape
+        )
         sign, log_det = jax.numpy.linalg.slogdet(hess)
+        if hess.shape[0] == 1:
+            return sign[0], log_det[0]
         return sign, log_det
 
     if jit:
